@@ -382,12 +382,17 @@ Definition str4_eqb (a b : str4) : bool :=
   String.eqb (blk_file a) (blk_file b) && String.eqb (blk_fun a) (blk_fun b) &&
   String.eqb (blk_switch a) (blk_switch b) && String.eqb (blk_class a) (blk_class b).
 
+(* "test": the block only tests and throws (recognised by shape or by its effects: it assigns to nothing but its own
+   variables, calls only readers / verified pure or always-throwing same-file helpers, leaves only by throwing);
+   "helper": a guarded file-scope block that only defines such helpers; "decl": header field / macro *)
+Definition harmless_class (c : string) : bool :=
+  String.eqb c "test" || String.eqb c "decl" || String.eqb c "helper".
+
 Definition block_ok (r : str4) : bool :=
-  String.eqb (blk_class r) "test" || String.eqb (blk_class r) "decl" ||
-  existsb (str4_eqb r) audited_non_test.
+  harmless_class (blk_class r) || existsb (str4_eqb r) audited_non_test.
 
 Definition non_test_blocks : list str4 :=
-  filter (fun r => negb (String.eqb (blk_class r) "test" || String.eqb (blk_class r) "decl")) cfg_guarded_blocks.
+  filter (fun r => negb (harmless_class (blk_class r))) cfg_guarded_blocks.
 
 Definition known_switch (r : str4) : bool :=
   existsb (String.eqb (blk_switch r)) (map switch_name all_switches).
@@ -395,15 +400,14 @@ Definition known_switch (r : str4) : bool :=
 Definition audited_pure_calls : list string := ["header"; "len"; "size"; "type_of"; "Tuple_Len"]%string.
 
 (* where the collector / the method cache are compiled in or out *)
+(* a site = (file, function) that contains `#ifndef CELLO_NGC` code, however many blocks *)
 Definition audited_ngc_blocks : list (string * string) :=
-  [("src/Alloc.c", "alloc_by"); ("src/Alloc.c", "alloc_by"); ("src/Alloc.c", "del_by");
-   ("src/GC.c", "<file scope>");
-   ("src/Thread.c", "Thread_Init_Run"); ("src/Thread.c", "Thread_Init_Run");
-   ("src/Thread.c", "Thread_Init_Run"); ("src/Thread.c", "Thread_Init_Run")]%string.
+  [("src/Alloc.c", "alloc_by"); ("src/Alloc.c", "del_by"); ("src/GC.c", "<file scope>");
+   ("src/Thread.c", "Thread_Init_Run")]%string.
 
-Definition audited_cache_uses : list (string * string) :=
-  [("src/Type.c", "enum "); ("src/Type.c", "Type_New"); ("src/Type.c", "Type_Builtin_Name");
-   ("src/Type.c", "Type_Builtin_Size"); ("src/Type.c", "Type_Instance")]%string.
+(* the method cache is private to the dispatch code: CELLO_CACHE / CELLO_CACHE_NUM are mentioned in Type.c only
+   (which functions of Type.c mention them changes with every refactoring of the lookup and is not audited) *)
+Definition audited_cache_files : list string := ["src/Type.c"]%string.
 
 (* index normalisation and test of every CELLO_BOUND_CHECK block (Generated.cfg_bound_guards):
    wrap = `i < 0 ? n+i : i`, wrap1 = `i < 0 ? (n+1)+i : i`; oob = `i < 0 or i >= n`, oob1 = `… >= n+1`,
